@@ -46,8 +46,8 @@ type worker struct {
 	err *tail
 }
 
-func startWorker() (*worker, error) {
-	cmd := exec.Command(os.Args[0], "-worker")
+func startWorker(bin string) (*worker, error) {
+	cmd := exec.Command(bin, "-worker")
 	in, err := cmd.StdinPipe()
 	if err != nil {
 		return nil, err
@@ -72,19 +72,30 @@ func (w *worker) kill() {
 
 var (
 	poolOnce sync.Once
-	pool     chan *worker
+	pool     chan *worker // workers of this binary
+	poolInst chan *worker // workers of the instrumented binary (scheduling points inside the schedules, instr.go)
 )
 
 const poolSize = 12
 
-func getPool() chan *worker {
+func getPool(inst bool) chan *worker {
 	poolOnce.Do(func() {
 		pool = make(chan *worker, poolSize)
+		poolInst = make(chan *worker, poolSize)
 		for i := 0; i < poolSize; i++ {
 			pool <- nil // started lazily
+			poolInst <- nil
 		}
 	})
+	if inst {
+		return poolInst
+	}
 	return pool
+}
+
+// isFineInput: the input asks for scheduling points inside the schedule's operations.
+func isFineInput(input string) bool {
+	return strings.Contains(" "+input+" ", " fine=1 ")
 }
 
 // crashLine: the interesting part of a Go crash report, on one line.
@@ -127,12 +138,21 @@ func execute(input string) string {
 }
 
 func execute1(input string) string {
-	p := getPool()
+	bin := os.Args[0]
+	inst := isFineInput(input)
+	if inst {
+		b, why := instrumentedWorker()
+		if b == "" {
+			return "res=noinstr why=" + why
+		}
+		bin = b
+	}
+	p := getPool(inst)
 	w := <-p
 	defer func() { p <- w }()
 	if w == nil {
 		var err error
-		w, err = startWorker()
+		w, err = startWorker(bin)
 		if err != nil {
 			w = nil
 			return "res=err:cannot_start_worker"
